@@ -18,9 +18,10 @@ import (
 	"pgregory.net/rapid"
 
 	"verifharness/hx"
+	"verifharness/wire"
 )
 
-func TestMain(m *testing.M) { hx.Main(m) }
+func TestMain(m *testing.M) { wire.Init(false); hx.Main(m) }
 
 // ---------------------------------------------------------------------------
 // model
@@ -238,6 +239,7 @@ func (c *countingRT) RoundTrip(r *http.Request) (*http.Response, error) {
 func newProxy(tbl route.Table, matcher string, rt http.RoundTripper) *proxy.HTTPProxy {
 	cache := route.NewGlobCache(100)
 	return &proxy.HTTPProxy{
+		Stats:     wire.Stats(),
 		Config:    config.Proxy{},
 		Transport: rt,
 		Lookup: func(r *http.Request) *route.Target {
